@@ -519,9 +519,9 @@ for _e, _n, _u in ((0, 8, 11), (1, 10, 13), (2, 11, 14)):
 SFO = dict(harness='harness/h_setof_oer.c', units=[SK + 'constr_SET_OF_oer.c', SK + 'constr_SET_OF.c', SK + 'asn_SET_OF.c'],
            link=[SK + 'constr_SET_OF.c', SK + 'asn_SET_OF.c', SK + 'oer_support.c'],
            fp_restrict=[(r'oer_decoder\)$', ['sv_oer']), (r'free_struct\)$', ['sv_free'])], trusted=[STUBM, 'stubs/realloc64.c replaces the CBMC realloc model'], stubs=['stubs/realloc64.c'])
-O(id='SET_OF_decode_oer.b8', props=['C04', 'C14', 'C15'], kind='bounded', entry='h_SET_OF_decode_oer', functions=['SET_OF_decode_oer', 'oer_fetch_quantity', 'asn_set_add', 'SET_OF_free', 'asn_set_empty'],
-  defines=['VF_N=8'], unwind=6, cbmc=['--unwindset', 'oer_fetch_length.0:10,oer_fetch_length.1:10,oer_fetch_quantity.0:10,oer_fetch_quantity.1:10,h_SET_OF_decode_oer.0:11,h_SET_OF_decode_oer.1:11,realloc.0:66', '--malloc-may-fail', '--malloc-fail-null', '--memory-leak-check'],
-  bound='SET OF stub members; every input of at most 8 octets in an exact-size heap buffer; every allocation may fail', min_props=80, timeout=900, **SFO)
+O(id='SET_OF_decode_oer.b9', props=['C04', 'C14', 'C15'], kind='bounded', entry='h_SET_OF_decode_oer', functions=['SET_OF_decode_oer', 'oer_fetch_quantity', 'asn_set_add', 'SET_OF_free', 'asn_set_empty'],
+  defines=['VF_N=9'], unwind=6, cbmc=['--unwindset', 'oer_fetch_length.0:10,oer_fetch_length.1:10,oer_fetch_quantity.0:10,oer_fetch_quantity.1:10,h_SET_OF_decode_oer.0:12,h_SET_OF_decode_oer.1:12,realloc.0:66', '--malloc-may-fail', '--malloc-fail-null', '--memory-leak-check'],
+  bound='SET OF stub members; every input of at most 9 octets (a quantity field of up to 8 octets) in an exact-size heap buffer; every allocation may fail', min_props=80, timeout=900, **SFO)
 O(id='SET_OF_decode_oer.chunk2', props=['C05'], kind='bounded', tier='thorough', entry='h_SET_OF_decode_oer_chunked', functions=['SET_OF_decode_oer', 'oer_fetch_quantity', 'asn_set_add'],
   defines=['VF_N=8'], unwind=6, cbmc=['--unwindset', 'oer_fetch_length.0:10,oer_fetch_length.1:10,oer_fetch_quantity.0:10,oer_fetch_quantity.1:10,h_SET_OF_decode_oer.0:11,h_SET_OF_decode_oer.1:11,realloc.0:66', '--no-malloc-may-fail'], bound='every split point of every input of at most 8 octets (two chunks)', min_props=80, timeout=1800, mem_gb=30, **SFO)
 
@@ -716,6 +716,15 @@ O(id='uper_open_type_skip.b5', props=['C03', 'C04'], kind='bounded', tier='exper
   fp_restrict=[(r'uper_decoder\)$', ['uper_sot_suck']), (r'\.output\)$', ['vf_cb', 'encode_dyn_cb', 'ignore_output'])],
   stubs=['stubs/realloc64.c', 'stubs/memcpy16.c'], unwind=10, cbmc=['--unwindset', 'asn_get_few_bits:4,realloc.0:66,memcpy.0:18', '--no-malloc-may-fail'],
   bound='open types of 0..5 octets with arbitrary contents at every bit offset 0..7', trusted=['stubs/realloc64.c, stubs/memcpy16.c'], min_props=50, timeout=900)
+
+O(id='SET_OF_decode_oer.chunk3e', props=['C05'], kind='bounded', tier='experimental', entry='h_SET_OF_decode_oer_chunked3', functions=['SET_OF_decode_oer', 'oer_fetch_quantity', 'asn_set_add'],
+  unwind=6, cbmc=['--unwindset', 'oer_fetch_length.0:10,oer_fetch_length.1:10,oer_fetch_quantity.0:10,oer_fetch_quantity.1:10,realloc.0:66', '--no-malloc-may-fail'],
+  bound='every split point of every input of at most 6 octets; three chunks, the middle one empty', min_props=80, timeout=1800, mem_gb=30, **dict(SFO, defines=['VF_N=6']))
+
+O(id='CHOICE_decode_uper.ext', props=['C03', 'C04', 'C14'], kind='bounded', entry='h_CHOICE_decode_uper_ext', functions=['CHOICE_decode_uper', 'CHOICE_free', '_set_present_idx', 'uper_get_nsnnwn'],
+  unwind=10, cbmc=['--unwindset', 'asn_get_few_bits:4', '--malloc-may-fail', '--malloc-fail-null', '--memory-leak-check'],
+  bound='extensible CHOICE { x, ..., y, z }: every bit string of at most 24 bits, every outcome of the open type reader (stub with the decoder convention); every allocation may fail',
+  min_props=60, timeout=900, **dict(CHM, defines=['VF_CB_CAP=8', 'VF_CX=1'], trusted=CHM['trusted'] + ['uper_open_type_get: harness stub (per_opentype.c not linked)']))
 
 for _o in OBLIGATIONS:
     if _o.get('enforce') and _o.get('kind') in ('enforce', 'width') and _o.get('tier') == 'quick' and 'C19' not in _o['props']:
